@@ -202,6 +202,22 @@ CHECKS["C20"] = dict(
          "stubs.py by the translator plus per-sample observation, not a semantic proof about callees.",
     technique="Lean 4 proof (list induction; parameter-list reading function) + translator-generated decide obligation + model/implementation correspondence",
     design="6 C20")
+CHECKS["C02"] = dict(
+    text="Lean 4 theorems: for every schema with distinct keys and every configuration of it at any nesting depth (sub-configurations, "
+         "config types, lists of configurations, dynamically added fields), if the state validates and to_tree returns t then load_tree(t) "
+         "into a fresh configuration of the schema, with or without validation, does not fail and holds the same value under every "
+         "persistent field at every depth up to exactly the allowed normalisations, the same dynamic values and nothing else (induction on "
+         "nesting depth over the code-order models of to_tree / load_tree / _set_value); lifted to Config.dumps/loads for every format that "
+         "gives the tree back (format-level law, C04), and two such formats are interchangeable. Premises are explicit and shown jointly "
+         "satisfiable: per-leaf codec law (C05/C08/C09), no field bound to a set environment variable, nested configurations validate. "
+         "Correspondence: random histories ending in validate + to_tree vs the model, load_tree of the real tree into a fresh configuration vs "
+         "the model; direct oracle: dumps/loads through all five real formats x options for every valid reachable state, value equality at "
+         "every depth, tree plainness and absence of computed fields.",
+    note=CFG_NOTE + " The text layers are third-party: DocFormat.LawOn is a hypothesis, exercised for real per sample. The model validates decoded "
+         "list/dict items again on assignment where the real proxies recognise their own kind; equal for idempotent item fields "
+         "(C05.validate_idem), schemas with the recorded non-idempotent item fields (F22/F25) are counted as unmodelled.",
+    technique="Lean 4 proof (induction on nesting depth; refinement of load_tree after to_tree to the identity up to named normalisations) + model/implementation correspondence",
+    design="6 C02")
 PENDING = ["C01", "C02", "C03", "C04", "C05", "C06", "C07", "C08", "C09", "C10", "C11", "C12", "C13", "C14", "C15", "C16",
            "C17", "C19", "C20"]
 
